@@ -5,7 +5,7 @@
 # scratch directory first; a hard-link copy of the warm dependency target dir is used so that
 # cargo's freshness cache can never replay an old result for the adlt crates themselves.
 set -u
-SRC="$1"; OUT="$2"
+SRC="$1"; mkdir -p "$2"; OUT="$(cd "$2" && pwd)"
 HERE="$(cd "$(dirname "$0")" && pwd)"
 VERIF="$(cd "$HERE/.." && pwd)"
 CACHE="${VERIF_CACHE:-$VERIF/.cache}"
@@ -41,7 +41,7 @@ rm -f "$OUT/lib.json" "$OUT/bin.json"
 RC=$?
 if [ $RC -ne 0 ]; then
   echo "ERROR: cargo check of the tree failed (does not compile?)" >&2
-  tail -40 "$SCR/cargo.log" >&2
+  grep -v "process didn.t exit successfully" "$SCR/cargo.log" | cut -c1-400 | tail -40 >&2
   exit 2
 fi
 for f in lib bin; do
